@@ -245,7 +245,7 @@ func TestVerif_C09(t *testing.T) {
 	res.assume("burst lower bounds allow a shortfall of one float64 rounding unit (max(1, exact*2^-50)): the code computes bursts in float64 and truncates")
 	res.assume("soundness of the session-wide limiter is judged from table membership: the live QER absent from the application table must be referenced by every PDR, whichever eligible one the agent chose")
 	res.assume("nothing is claimed for QERs with GBR > MBR")
-	nh := vEnv.pick(1500, 25000)
+	nh := vEnv.pick(1500, 200000)
 	var a *vAgent
 	var qcis map[uint8]c09Qci
 	curCfg := -1
@@ -502,7 +502,7 @@ func TestVerif_C09(t *testing.T) {
 // UP4: meter cells resolved through the entries that reference them
 
 func c09UP4(res *vResult) {
-	n := vEnv.pick(720, 12000)
+	n := vEnv.pick(720, 80000)
 	var a *vAgent
 	curCfg := -1
 	var ucfg mUP4Cfg
